@@ -715,16 +715,16 @@ public:
     {
         // names on the same level are always unique but it's not guaranteed for
         // names from different levels (which are concatenated to create group
-        // size parameter name). By adding `_<depth>` suffix we ensure that
-        // there will be no two identical parameter names because each level has
-        // unique suffix which is used only in case of conflicts.
-        if(std::find(
-               std::begin(existing_names),
-               std::end(existing_names),
-               desired_name)
-           != std::end(existing_names))
+        // size parameter name). `_<depth>` suffix is added until the name is
+        // unique (paths of the same depth can also produce the same name, e.g.
+        // `a/b_c`, `a_b/c`).
+        while(std::find(
+                  std::begin(existing_names),
+                  std::end(existing_names),
+                  desired_name)
+              != std::end(existing_names))
         {
-            return fmt::format("{}_{}", desired_name, level_depth);
+            desired_name = fmt::format("{}_{}", desired_name, level_depth);
         }
 
         return desired_name;
